@@ -67,7 +67,7 @@ def cases(tier, seed):
     for i in range(6 if tier == "quick" else 80):
         out.append({"id": "cluster-%d" % i, "kind": "cluster", "nsph": 2 + i % 2, "seed": [seed, "cluster", i], "cost": 60, "timeout": 1500,
                     # every third one is a pair whose centres are a whole number of half wavelengths apart (k d = N pi: F143)
-                    "kd_pi": (2 + i // 3) if i % 3 == 1 else None})
+                    "kd_pi": (2 + (i // 3) % 5) if i % 3 == 1 else None})
     # layered spheres with a strongly absorbing (metallic) shell, up to size parameters of several hundred
     for i, kR in enumerate([20.0, 100.0, 190.0, 200.0, 261.0, 400.0]):
         out.append({"id": "lay-metal-%d" % i, "kind": "metal_shell", "kR": kR, "shell": [0.16, 4.9], "core": 1.45, "frac": [0.9, 0.8, 0.5][i % 3], "cost": 3})
@@ -140,7 +140,10 @@ def _run_cluster(case):
     S0 = calc_scat_matrix(hp.detector_points(theta=np.array([0.0]), phi=np.array([0.0])), s, nmed, wl, theory=th).values[0]
     e0 = np.array([pol[0], -pol[1]])                 # at phi = 0: parallel = x, perpendicular = -y
     resid = {"optical_theorem": fnum(abs(4 * math.pi / k ** 2 * float((e0 @ S0 @ e0).real) - cext) / cext)}
-    nth, nph = 40, 48
+    # quadrature orders from the size of the cluster: the intensity is a trigonometric polynomial of degree ~2 (k R + a few) in both angles
+    cen_ = np.array([m_["c"] for m_ in cl["members"]], dtype=float)
+    kR = k * float(max(np.linalg.norm(c_ - cen_.mean(0)) + m_["r"] for c_, m_ in zip(cen_, cl["members"])))
+    nth, nph = int(max(40, 2 * kR + 24)), int(max(48, 4 * kR + 40))
     mu, w = np.polynomial.legendre.leggauss(nth)
     ths = np.arccos(mu)
     phs = 2 * math.pi * np.arange(nph) / nph
